@@ -15,70 +15,14 @@ import (
 	"sync"
 	"time"
 
+	"verif/internal/corpus"
 	"verif/internal/evidence"
-	"verif/internal/gengen"
 	"verif/internal/gharness"
 	"verif/internal/govl"
 	"verif/internal/jbuild"
 	"verif/internal/known"
 	"verif/internal/rangerewrite"
-	"verif/internal/rng"
-	"verif/internal/seqgen"
 )
-
-type entry struct {
-	Dir    string   `json:"dir"`
-	Mains  []string `json:"mains"`
-	Name   string   `json:"name"`
-	Module string   `json:"module"`
-}
-
-func writeProg(dir string, files map[string]string) error { return jbuild.WriteFiles(dir, files) }
-
-func genCorpus(root string, seed int64, n int) ([]entry, error) {
-	var list []entry
-	for i := 0; i < n; i++ {
-		name := fmt.Sprintf("prog%03d", i)
-		dir := filepath.Join(root, name)
-		r := rng.New(seed, "C17", "prog", i)
-		if i%5 == 4 {
-			// a seqgen program (closures, escaping variables, many statement forms)
-			p := seqgen.Generate(r, seqgen.Opts{Funcs: 3, Stmts: 10, Depth: 3, Clean: true, Goroutine: true})
-			if err := copyDir(filepath.Join(jbuild.VerifDir(), "workloads", "seqlib"), dir); err != nil {
-				return nil, err
-			}
-			if err := writeProg(dir, p.Files); err != nil {
-				return nil, err
-			}
-			list = append(list, entry{Dir: dir, Mains: []string{"."}, Name: name, Module: "seqprog"})
-			continue
-		}
-		module := fmt.Sprintf("genprog%03d", i)
-		p := gengen.Generate(r, i%3 == 1, module)
-		if err := writeProg(dir, p.Files); err != nil {
-			return nil, err
-		}
-		list = append(list, entry{Dir: dir, Mains: p.Mains, Name: name, Module: module})
-	}
-	return list, nil
-}
-
-func copyDir(src, dst string) error {
-	return filepath.Walk(src, func(path string, info os.FileInfo, err error) error {
-		if err != nil {
-			return err
-		}
-		rel, _ := filepath.Rel(src, path)
-		if info.IsDir() {
-			return os.MkdirAll(filepath.Join(dst, rel), 0o755)
-		}
-		b, err := os.ReadFile(path)
-		if err != nil {
-			return err
-		}
-		return os.WriteFile(filepath.Join(dst, rel), b, 0o644)
-	})
-}
 
 func Spec(tier string, seed int64, workers int) gharness.Spec {
 	n := 12
@@ -89,7 +33,7 @@ func Spec(tier string, seed int64, workers int) gharness.Spec {
 		EnumTests: []string{"TestVerifC17"},
 		Prepare: func(scratch string) ([]string, error) {
 			root := filepath.Join(scratch, "corpus")
-			list, err := genCorpus(root, seed, n)
+			list, err := corpus.Generate(root, seed, n)
 			if err != nil {
 				return nil, err
 			}
@@ -147,7 +91,7 @@ func control(tier string, seed int64, workers int) (violations int, counters map
 	if tier == "thorough" {
 		n, reps = 60, 8
 	}
-	list, err := genCorpus(filepath.Join(env.Scratch, "corpus"), seed+1, n)
+	list, err := corpus.Generate(filepath.Join(env.Scratch, "corpus"), seed+1, n)
 	if err != nil {
 		fmt.Fprintln(os.Stderr, err)
 		return 0, nil, 2
@@ -160,7 +104,7 @@ func control(tier string, seed int64, workers int) (violations int, counters map
 		for _, m := range e.Mains {
 			for _, minify := range []bool{false, true} {
 				wg.Add(1)
-				go func(e entry, m string, minify bool) {
+				go func(e corpus.Entry, m string, minify bool) {
 					defer wg.Done()
 					sem <- struct{}{}
 					defer func() { <-sem }()
